@@ -23,7 +23,8 @@ from contextlib import contextmanager
 from hypothesis import strategies as st
 
 from ebpfcat.arraymap import ArrayMap, PerCPUArrayMap
-from ebpfcat.ebpf import AssembleError, LocalVar, Member, Structure
+from ebpfcat.ebpf import (
+    AssembleError, LocalVar, Member, Structure, SubProgram)
 from ebpfcat.hashmap import Dict, HashMap
 from ebpfcat.xdp import XDP, XDPExitCode
 
@@ -120,6 +121,8 @@ def case_strategy(draw, percpu=False):
             "loc": draw(st.sampled_from([None, "B", "H", "I", "Q"])),
             "loc_first": draw(st.booleans()),
             "hv_base": draw(st.sampled_from([False, False, True])),
+            "sibling": draw(st.sampled_from([None, None, "smaller",
+                                             "bigger"])),
             "size": draw(st.integers(2, 6)), "lru": draw(st.booleans()),
             "exec": draw(st.sampled_from(["fake", "fake", "kernel"])),
             "derived": draw(st.booleans()),
@@ -294,7 +297,14 @@ def build(case, f):
         cls = type("P", (type("PBase", (XDP,), inherited),), ns)
     else:
         cls = type("P", (XDP,), ns)
-    e = cls()
+    # a second program object of the same class, created later, with fewer
+    # or more subprograms (whose variables live in the same per-CPU map)
+    sib = case.get("sibling")
+    Sub = type("Sub", (SubProgram,), {"spc": pmap.globalVar("Q"),
+                                      "spd": pmap.globalVar("I"),
+                                      "program": lambda self: None})
+    mine = [Sub(), Sub()] if sib == "smaller" else []
+    e = cls(subprograms=mine) if mine else cls()
     try:
         e.load()
     except Exception as err:
@@ -302,6 +312,10 @@ def build(case, f):
             # the kernel took the program; setting up the maps failed
             raise AfterLoad(f"{type(err).__name__}: {err}") from err
         raise
+    if sib:
+        other = cls(subprograms=[Sub()]) if sib == "bigger" else cls()
+        other.load()
+        e.sibling = other
     if two:
         e.Key2, e.Value2 = Key2, Value2
     return e, Key, Value
@@ -320,7 +334,10 @@ def run_case(case, judge_overruns=False):
                          f"{[(h['fmt'], h['default']) for h in hv]}, key "
                          f"{kf}, value {vf}, history {kinds[-10:]}", **kw)
 
-    on_kernel = case.get("exec") == "kernel" and kernel.available()
+    # (with a sibling program object the history runs on the stand-in only:
+    # a wrongly sized buffer must not be handed to the real kernel)
+    on_kernel = case.get("exec") == "kernel" and kernel.available() \
+        and not case.get("sibling")
     ctx = real_kernel if on_kernel else fakebpf.fake
     classes.append("exec=kernel" if on_kernel else "exec=fake")
     with ctx(ncpu=case["ncpu"]) as f:
